@@ -102,6 +102,37 @@ Proof.
   - destruct (split_exn (EGroup l)) as [[m|] [r|]]; reflexivity.
 Qed.
 
+Definition absorbed (r : exit_res) : bool := match r with XFalse => false | _ => true end.
+
+(* the non-absorbing branch: hand the pending uncancellations to the parent (or undo them) *)
+Definition exit_handover (s5 : st) (c : sid) (t : tid) (par : option sid) : st :=
+  let n := s_pending (scopes s5 c) in
+  if Nat.eqb n 0 then s5 else
+  match par with
+  | Some p =>
+      if opt_eqb (s_host (scopes s5 p)) t
+      then upd_scope (upd_scope s5 p (fun x => sc_pending (s_pending x + n) x)) c (sc_pending 0)
+      else upd_scope (iter n (fun a => task_uncancel a t) s5) c (sc_pending 0)
+  | None => upd_scope (iter n (fun a => task_uncancel a t) s5) c (sc_pending 0)
+  end.
+
+(* exit_tail in a form that separates the decision from the state update *)
+Lemma exit_tail_eq s5 c t par exc :
+  exit_tail s5 c t par exc =
+  if s_cancelled (scopes s5 c) && negb (parent_visible s5 c) then
+    let s6 := upd_scope (iter (s_pending (scopes s5 c)) (fun a => task_uncancel a t) s5) c (sc_pending 0) in
+    (upd_scope (if absorbed (absorb_res exc) then upd_scope s6 c (sc_caught true) else s6) c (sc_host None),
+     absorb_res exc)
+  else (upd_scope (exit_handover s5 c t par) c (sc_host None), XFalse).
+Proof.
+  unfold exit_tail, absorb_res, exit_handover. cbv zeta.
+  destruct (s_cancelled (scopes s5 c) && negb (parent_visible s5 c)); [|reflexivity].
+  destruct exc as [e|]; [|reflexivity].
+  destruct e as [o|n| | |l]; try reflexivity.
+  - destruct o; reflexivity.
+  - destruct (split_exn (EGroup l)) as [[m|] [r|]]; reflexivity.
+Qed.
+
 (* ---- the frame: the fields the two tests read are not touched by the bookkeeping ---- *)
 Record xcore_eq (a b : scope) : Prop := mk_xcore_eq {
   xc_cancelled : s_cancelled a = s_cancelled b;
@@ -323,22 +354,19 @@ Proof.
     - destruct (split_exn (EGroup l)) as [[m|] r]; [discriminate|reflexivity]. }
   split.
   - rewrite (scope_exit_result s c t exc G). destruct (_ && _); [exact A|reflexivity].
-  - rewrite (scope_exit_eq s c t exc G).
+  - rewrite (scope_exit_eq s c t exc G), exit_tail_eq, A. cbn [absorbed].
     pose proof (exit_mid_xframe s c t) as X. rewrite <- (xc_caught _ _ (xf_scopes _ _ X c)).
-    set (s5 := exit_mid s c t). unfold exit_tail. cbv zeta.
+    set (s5 := exit_mid s c t).
     assert (U : forall a, s_caught (scopes (upd_scope a c (sc_host None)) c) = s_caught (scopes a c)).
     { intros a. cbn [upd_scope set_scopes scopes]. now rewrite upd_same. }
     assert (P : forall a, s_caught (scopes (upd_scope a c (sc_pending 0)) c) = s_caught (scopes a c)).
     { intros a. cbn [upd_scope set_scopes scopes]. now rewrite upd_same. }
     assert (I : forall n a, s_caught (scopes (iter n (fun a => task_uncancel a t) a) c) = s_caught (scopes a c)).
     { intros n a. pose proof (dframe_iter_uncancel n t a) as D. apply (ce_caught _ _ (df_scopes _ _ D c)). }
-    destruct (s_cancelled (scopes s5 c) && negb (parent_visible s5 c)).
-    + destruct exc as [e|]; [|cbn [fst]; now rewrite U, P, I].
-      unfold absorb_res in A.
-      destruct e as [o|n| | |l]; try (cbn [fst]; now rewrite U, P, I).
-      * destruct (is_anyio_cancel (ECancel o)); [discriminate|]. cbn [fst]. now rewrite U, P, I.
-      * destruct (split_exn (EGroup l)) as [[m|] [r|]]; try discriminate; cbn [fst]; now rewrite U, P, I.
-    + cbn [fst]. rewrite U. destruct (Nat.eqb (s_pending (scopes s5 c)) 0); [reflexivity|].
+    destruct (s_cancelled (scopes s5 c) && negb (parent_visible s5 c)); cbv zeta; cbn [fst].
+    + now rewrite U, P, I.
+    + rewrite U. unfold exit_handover. cbv zeta.
+      destruct (Nat.eqb (s_pending (scopes s5 c)) 0); [reflexivity|].
       destruct (s_parent (scopes s c)) as [p|].
       * destruct (opt_eqb (s_host (scopes s5 p)) t).
         -- rewrite P. cbn [upd_scope set_scopes scopes]. rewrite upd_eq.
@@ -347,131 +375,100 @@ Proof.
       * now rewrite P, I.
 Qed.
 
+(* a relation like xframe but ignoring cancelled_caught: now, nscope and the chain/deadline fields *)
+Definition cframe (a b : st) : Prop :=
+  now b = now a /\ nscope b = nscope a /\
+  forall x, s_cancelled (scopes b x) = s_cancelled (scopes a x) /\
+            s_shield (scopes b x) = s_shield (scopes a x) /\
+            s_parent (scopes b x) = s_parent (scopes a x) /\
+            s_deadline (scopes b x) = s_deadline (scopes a x) /\
+            s_bydeadline (scopes b x) = s_bydeadline (scopes a x).
+
+Lemma cframe_xframe a b : xframe a b -> cframe a b.
+Proof. intros [H1 H2 H3]. refine (conj H1 (conj H2 _)). intros x. destruct (H3 x). auto. Qed.
+
+Lemma cframe_trans a b d : cframe a b -> cframe b d -> cframe a d.
+Proof.
+  intros (A1 & A2 & A3) (B1 & B2 & B3). refine (conj _ (conj _ _)); try congruence.
+  intros x. destruct (A3 x) as (? & ? & ? & ? & ?), (B3 x) as (? & ? & ? & ? & ?).
+  repeat split; congruence.
+Qed.
+
+Lemma cframe_upd_scope a x g :
+  (forall k, s_cancelled (g k) = s_cancelled k /\ s_shield (g k) = s_shield k /\ s_parent (g k) = s_parent k /\
+             s_deadline (g k) = s_deadline k /\ s_bydeadline (g k) = s_bydeadline k) ->
+  cframe a (upd_scope a x g).
+Proof.
+  intros Hg. refine (conj eq_refl (conj eq_refl _)). intros y. cbn [upd_scope set_scopes scopes].
+  rewrite upd_eq. destruct (Nat.eqb y x) eqn:E; [|auto]. apply Nat.eqb_eq in E. subst y. apply Hg.
+Qed.
+
+Lemma exit_handover_xframe s5 c t par : xframe s5 (exit_handover s5 c t par).
+Proof.
+  unfold exit_handover. cbv zeta. destruct (Nat.eqb (s_pending (scopes s5 c)) 0); [apply xframe_refl|].
+  assert (K : xframe s5 (upd_scope (iter (s_pending (scopes s5 c)) (fun a => task_uncancel a t) s5) c (sc_pending 0))).
+  { eapply xframe_trans; [apply dframe_xframe, dframe_iter_uncancel|].
+    apply xframe_upd_scope. intros k; constructor; reflexivity. }
+  destruct par as [p|]; [|exact K]. destruct (opt_eqb (s_host (scopes s5 p)) t); [|exact K].
+  eapply xframe_trans; apply xframe_upd_scope; intros k; constructor; reflexivity.
+Qed.
+
 (* caught_iff_absorbed: cancelled_caught of the exited scope after __exit__ = its old value, or it absorbed now
    (returned True, or re-raised the rest of a group); no other scope's flag moves *)
-Definition absorbed (r : exit_res) : bool := match r with XFalse => false | _ => true end.
-
 Theorem caught_iff_absorbed s c t exc :
   exit_guards s c t = true ->
   s_caught (scopes (fst (scope_exit s c t exc)) c) =
     s_caught (scopes s c) || absorbed (snd (scope_exit s c t exc)) /\
   (forall x, x <> c -> s_caught (scopes (fst (scope_exit s c t exc)) x) = s_caught (scopes s x)).
 Proof.
-  intros G. rewrite (scope_exit_eq s c t exc G).
+  intros G. rewrite (scope_exit_eq s c t exc G), exit_tail_eq.
   pose proof (exit_mid_xframe s c t) as X.
   set (s5 := exit_mid s c t) in *.
   assert (U : forall a x, s_caught (scopes (upd_scope a c (sc_host None)) x) = s_caught (scopes a x)).
   { intros a x. cbn [upd_scope set_scopes scopes]. rewrite upd_eq. destruct (Nat.eqb x c) eqn:E; [|reflexivity].
     apply Nat.eqb_eq in E. now subst x. }
-  assert (P : forall a x, s_caught (scopes (upd_scope a c (sc_pending 0)) x) = s_caught (scopes a x)).
-  { intros a x. cbn [upd_scope set_scopes scopes]. rewrite upd_eq. destruct (Nat.eqb x c) eqn:E; [|reflexivity].
-    apply Nat.eqb_eq in E. now subst x. }
-  assert (I : forall n a x, s_caught (scopes (iter n (fun a => task_uncancel a t) a) x) = s_caught (scopes a x)).
-  { intros n a x. pose proof (dframe_iter_uncancel n t a) as D. apply (ce_caught _ _ (df_scopes _ _ D x)). }
-  assert (C1 : forall a, s_caught (scopes (upd_scope a c (sc_caught true)) c) = true).
-  { intros a. cbn [upd_scope set_scopes scopes]. now rewrite upd_same. }
-  assert (C2 : forall a x, x <> c -> s_caught (scopes (upd_scope a c (sc_caught true)) x) = s_caught (scopes a x)).
-  { intros a x Hx. cbn [upd_scope set_scopes scopes]. now rewrite upd_other. }
   assert (X5 : forall x, s_caught (scopes s5 x) = s_caught (scopes s x)).
   { intros x. apply (xc_caught _ _ (xf_scopes _ _ X x)). }
-  unfold exit_tail. cbv zeta.
-  destruct (s_cancelled (scopes s5 c) && negb (parent_visible s5 c)).
-  - assert (Yes : forall a, a = upd_scope (iter (s_pending (scopes s5 c)) (fun a => task_uncancel a t) s5) c (sc_pending 0) ->
-              s_caught (scopes (upd_scope (upd_scope a c (sc_caught true)) c (sc_host None)) c) =
-                s_caught (scopes s c) || true /\
-              (forall x, x <> c -> s_caught (scopes (upd_scope (upd_scope a c (sc_caught true)) c (sc_host None)) x)
-                                   = s_caught (scopes s x))).
-    { intros a ->. split.
-      - rewrite U, C1. now rewrite orb_true_r.
-      - intros x Hx. now rewrite U, C2, P, I, X5. }
-    assert (No : forall a, a = upd_scope (iter (s_pending (scopes s5 c)) (fun a => task_uncancel a t) s5) c (sc_pending 0) ->
-              s_caught (scopes (upd_scope a c (sc_host None)) c) = s_caught (scopes s c) || false /\
-              (forall x, x <> c -> s_caught (scopes (upd_scope a c (sc_host None)) x) = s_caught (scopes s x))).
-    { intros a ->. split.
-      - now rewrite U, P, I, X5, orb_false_r.
-      - intros x Hx. now rewrite U, P, I, X5. }
-    destruct exc as [e|]; [|cbn [fst snd absorbed]; now apply No].
-    destruct e as [o|n| | |l]; try (cbn [fst snd absorbed]; now apply No).
-    + destruct (is_anyio_cancel (ECancel o)); cbn [fst snd absorbed]; [now apply Yes|now apply No].
-    + destruct (split_exn (EGroup l)) as [[m|] [r|]]; cbn [fst snd absorbed];
-        [now apply Yes|now apply Yes|now apply No|now apply No].
-  - cbn [fst snd absorbed]. rewrite orb_false_r.
-    assert (K : forall x, s_caught (scopes
-                (if Nat.eqb (s_pending (scopes s5 c)) 0 then s5
-                 else match s_parent (scopes s c) with
-                      | Some p =>
-                          if opt_eqb (s_host (scopes s5 p)) t
-                          then upd_scope (upd_scope s5 p (fun x => sc_pending (s_pending x + s_pending (scopes s5 c)) x))
-                                         c (sc_pending 0)
-                          else upd_scope (iter (s_pending (scopes s5 c)) (fun a => task_uncancel a t) s5) c (sc_pending 0)
-                      | None => upd_scope (iter (s_pending (scopes s5 c)) (fun a => task_uncancel a t) s5) c (sc_pending 0)
-                      end) x) = s_caught (scopes s5 x)).
-    { intros x. destruct (Nat.eqb (s_pending (scopes s5 c)) 0); [reflexivity|].
-      destruct (s_parent (scopes s c)) as [p|].
-      - destruct (opt_eqb (s_host (scopes s5 p)) t).
-        + rewrite P. cbn [upd_scope set_scopes scopes]. rewrite upd_eq.
-          destruct (Nat.eqb x p) eqn:E; [|reflexivity]. apply Nat.eqb_eq in E. now subst p.
-        + now rewrite P, I.
-      - now rewrite P, I. }
+  destruct (s_cancelled (scopes s5 c) && negb (parent_visible s5 c)); cbv zeta; cbn [fst snd].
+  - assert (X6 : forall x, s_caught (scopes (upd_scope (iter (s_pending (scopes s5 c)) (fun a => task_uncancel a t) s5)
+                                                       c (sc_pending 0)) x) = s_caught (scopes s x)).
+    { intros x. rewrite <- X5. apply xc_caught. apply xf_scopes.
+      eapply xframe_trans; [apply dframe_xframe, dframe_iter_uncancel|].
+      apply xframe_upd_scope. intros k; constructor; reflexivity. }
+    destruct (absorbed (absorb_res exc)).
+    + split.
+      * rewrite U. cbn [upd_scope set_scopes scopes]. rewrite upd_same. cbn [sc_caught s_caught].
+        now rewrite orb_true_r.
+      * intros x Hx. rewrite U. cbn [upd_scope set_scopes scopes]. rewrite upd_other by exact Hx.
+        change (upd (scopes ?a) c ?v x) with (scopes (upd_scope a c (fun _ => v)) x).
+        specialize (X6 x). cbn [upd_scope set_scopes scopes] in X6. rewrite upd_other in X6 by exact Hx.
+        exact X6.
+    + split.
+      * now rewrite U, X6, orb_false_r.
+      * intros x _. now rewrite U, X6.
+  - pose proof (exit_handover_xframe s5 c t (s_parent (scopes s c))) as Hh.
     split.
-    + now rewrite U, K, X5.
-    + intros x _. now rewrite U, K, X5.
+    + now rewrite U, (xc_caught _ _ (xf_scopes _ _ Hh c)), X5, orb_false_r.
+    + intros x _. now rewrite U, (xc_caught _ _ (xf_scopes _ _ Hh x)), X5.
 Qed.
 
 (* the remaining chain fields are not touched by __exit__ at all (whatever the guards say) *)
-Theorem scope_exit_chain_frame s c t exc :
-  now (fst (scope_exit s c t exc)) = now s /\ nscope (fst (scope_exit s c t exc)) = nscope s /\
-  forall x, s_cancelled (scopes (fst (scope_exit s c t exc)) x) = s_cancelled (scopes s x) /\
-            s_shield (scopes (fst (scope_exit s c t exc)) x) = s_shield (scopes s x) /\
-            s_parent (scopes (fst (scope_exit s c t exc)) x) = s_parent (scopes s x) /\
-            s_deadline (scopes (fst (scope_exit s c t exc)) x) = s_deadline (scopes s x) /\
-            s_bydeadline (scopes (fst (scope_exit s c t exc)) x) = s_bydeadline (scopes s x).
+Theorem scope_exit_chain_frame s c t exc : cframe s (fst (scope_exit s c t exc)).
 Proof.
   destruct (exit_guards s c t) eqn:G.
-  2: { rewrite (scope_exit_guards_fail s c t exc G). cbn [fst]. auto 10. }
-  rewrite (scope_exit_eq s c t exc G).
+  2: { rewrite (scope_exit_guards_fail s c t exc G). cbn [fst]. apply cframe_xframe, xframe_refl. }
+  rewrite (scope_exit_eq s c t exc G), exit_tail_eq.
   pose proof (exit_mid_xframe s c t) as X. set (s5 := exit_mid s c t) in *.
-  (* a relation like xframe but ignoring cancelled_caught *)
-  set (Q := fun a b : st => now b = now a /\ nscope b = nscope a /\
-              forall x, s_cancelled (scopes b x) = s_cancelled (scopes a x) /\
-                        s_shield (scopes b x) = s_shield (scopes a x) /\
-                        s_parent (scopes b x) = s_parent (scopes a x) /\
-                        s_deadline (scopes b x) = s_deadline (scopes a x) /\
-                        s_bydeadline (scopes b x) = s_bydeadline (scopes a x)).
-  assert (Qx : forall a b, xframe a b -> Q a b).
-  { intros a b [H1 H2 H3]. refine (conj H1 (conj H2 _)). intros x. destruct (H3 x). auto. }
-  assert (Qt : forall a b d, Q a b -> Q b d -> Q a d).
-  { intros a b d (A1 & A2 & A3) (B1 & B2 & B3). refine (conj _ (conj _ _)); try congruence.
-    intros x. destruct (A3 x) as (? & ? & ? & ? & ?), (B3 x) as (? & ? & ? & ? & ?).
-    repeat split; congruence. }
-  assert (Qu : forall a x g, (forall k, s_cancelled (g k) = s_cancelled k /\ s_shield (g k) = s_shield k /\
-                                        s_parent (g k) = s_parent k /\ s_deadline (g k) = s_deadline k /\
-                                        s_bydeadline (g k) = s_bydeadline k) -> Q a (upd_scope a x g)).
-  { intros a x g Hg. refine (conj eq_refl (conj eq_refl _)). intros y. cbn [upd_scope set_scopes scopes].
-    rewrite upd_eq. destruct (Nat.eqb y x) eqn:E; [|auto]. apply Nat.eqb_eq in E. subst y. apply Hg. }
-  assert (Qi : forall n a, Q a (iter n (fun a => task_uncancel a t) a)).
-  { intros n a. apply Qx, dframe_xframe, dframe_iter_uncancel. }
-  assert (Fin : forall a, Q s a -> Q s (upd_scope a c (sc_host None))).
-  { intros a Ha. eapply Qt; [exact Ha|]. apply Qu. intros k. auto. }
-  assert (Cau : forall a, Q s a -> Q s (upd_scope a c (sc_caught true))).
-  { intros a Ha. eapply Qt; [exact Ha|]. apply Qu. intros k. auto. }
-  assert (Pen : forall a, Q s a -> Q s (upd_scope a c (sc_pending 0))).
-  { intros a Ha. eapply Qt; [exact Ha|]. apply Qu. intros k. auto. }
-  assert (Q5 : Q s s5) by (apply Qx, X).
-  assert (Q6 : Q s (upd_scope (iter (s_pending (scopes s5 c)) (fun a => task_uncancel a t) s5) c (sc_pending 0))).
-  { apply Pen. eapply Qt; [exact Q5|apply Qi]. }
-  change (Q s (fst (exit_tail s5 c t (s_parent (scopes s c)) exc))).
-  unfold exit_tail. cbv zeta.
-  destruct (s_cancelled (scopes s5 c) && negb (parent_visible s5 c)).
-  - destruct exc as [e|]; [|cbn [fst]; now apply Fin].
-    destruct e as [o|n| | |l]; try (cbn [fst]; now apply Fin).
-    + destruct (is_anyio_cancel (ECancel o)); cbn [fst]; [apply Fin, Cau, Q6|apply Fin, Q6].
-    + destruct (split_exn (EGroup l)) as [[m|] [r|]]; cbn [fst];
-        [apply Fin, Cau, Q6|apply Fin, Cau, Q6|apply Fin, Q6|apply Fin, Q6].
-  - cbn [fst]. apply Fin. destruct (Nat.eqb (s_pending (scopes s5 c)) 0); [exact Q5|].
-    destruct (s_parent (scopes s c)) as [p|]; [|exact Q6].
-    destruct (opt_eqb (s_host (scopes s5 p)) t); [|exact Q6].
-    apply Pen. eapply Qt; [exact Q5|]. apply Qu. intros k. auto.
+  assert (Fin : forall a, cframe s a -> cframe s (upd_scope a c (sc_host None))).
+  { intros a Ha. eapply cframe_trans; [exact Ha|]. apply cframe_upd_scope. intros k. auto. }
+  destruct (s_cancelled (scopes s5 c) && negb (parent_visible s5 c)); cbv zeta; cbn [fst].
+  - assert (Q6 : cframe s (upd_scope (iter (s_pending (scopes s5 c)) (fun a => task_uncancel a t) s5) c (sc_pending 0))).
+    { apply cframe_xframe. eapply xframe_trans; [exact X|].
+      eapply xframe_trans; [apply dframe_xframe, dframe_iter_uncancel|].
+      apply xframe_upd_scope. intros k; constructor; reflexivity. }
+    apply Fin. destruct (absorbed (absorb_res exc)); [|exact Q6].
+    eapply cframe_trans; [exact Q6|]. apply cframe_upd_scope. intros k. auto.
+  - apply Fin, cframe_xframe. eapply xframe_trans; [exact X|apply exit_handover_xframe].
 Qed.
 
 (* ====================================================================================================== *)
